@@ -170,13 +170,50 @@ def rule_offsets(ctx) -> None:
     r = A.returns_in(gso.node)
     chk.decide(bool(r) and norm(r[-1].value) == "_get_segment_offset(self._segments, segment) - self._init_offset", "C14.offset-formula", gso.qual + " init offset", "offsets are relative to the initial offset", norm(r[-1]) if r else "", "", A.loc(BIMG, gso.node))
     # the same dynamic formula in _parse and image_info
+    # (as a recurrence: with X the first argument of align(X, segment.OFFSET_ALIGNMENT) in terms of the loop-carried variables, X is 0
+    #  before the first segment and, after an iteration, X' = <offset used for this segment> + len(segment).  One running end, an
+    #  (offset, size) pair or any other carried representation give the same recurrence.)
     for mn in ("_parse", "image_info"):
         f = ctx.own(BIMG, "BootableImage", mn)
-        al = [norm(c) for c in A.calls_in(f.node, "align")]
-        chk.decide("align(prev_offset + prev_size, segment.OFFSET_ALIGNMENT)" in al, "C14.offset-formula", f.qual, "floating segments use align(prev_offset + prev_size, OFFSET_ALIGNMENT)", f"{al}", "", A.loc(BIMG, f.node))
-        upd = {norm(s.targets[0]): norm(s.value) for s in ast.walk(f.node) if isinstance(s, ast.Assign) and norm(s.targets[0]) in ("prev_offset", "prev_size")}
-        ok = upd.get("prev_size") == "len(segment)" and upd.get("prev_offset") in ("offset", "seg_offset")
-        chk.decide(ok, "C14.offset-formula", f.qual + " carry", "the running (offset, size) pair is that of the segment just handled", f"{upd}", "", A.loc(BIMG, f.node))
+        loops = [n_ for n_ in ast.walk(f.node) if isinstance(n_, ast.For) and any(A.call_name(c) == "align" and len(c.args) == 2 and norm(c.args[1]).endswith(".OFFSET_ALIGNMENT") for c in A.calls_in(n_))]
+        if len(loops) != 1:
+            raise AnalysisError(f"C14.offset-formula: the segment loop of {f.qual} was not found")
+        lp = loops[0]
+        seg = norm(lp.target)
+        paths = [q for q in A.spaths(lp.body) if q.end in ("fall", "continue")]
+        xs = {norm(c.args[0]) for q in paths for c in q.calls("align") if len(c.args) == 2 and norm(c.args[1]) == f"{seg}.OFFSET_ALIGNMENT"}
+        probs = []
+        if len(xs) != 1:
+            probs.append(f"floating offset computed as {sorted(xs)}")
+        else:
+            x = ast.parse(next(iter(xs)), mode="eval").body
+            carried = {n_.id for n_ in ast.walk(x) if isinstance(n_, ast.Name)}
+            # initial value: the carried variables are bound to constants before the loop
+            init = {}
+            for st in ast.walk(f.node):
+                if isinstance(st, ast.Assign) and isinstance(st.value, ast.Constant) and st.lineno < lp.lineno:
+                    for t_ in st.targets:
+                        if isinstance(t_, ast.Name) and t_.id in carried:
+                            init[t_.id] = st.value
+            x0 = ctx.prog.fold(A.subst(x, init), f.module) if set(init) == carried else None
+            if x0 != 0:
+                probs.append(f"before the first segment X = {norm(A.subst(x, init))} (expected 0)")
+            for q in paths:
+                if q.end == "continue" and not any(k in q.env and norm(q.env[k]) != k for k in carried):
+                    continue  # a skipped segment leaves the carry alone
+                nxt = norm(A.subst(x, {k: v for k, v in q.env.items() if k in carried}))
+                floating = [norm(c) for c in q.calls("align") if len(c.args) == 2 and norm(c.args[1]) == f"{seg}.OFFSET_ALIGNMENT"]
+                if not nxt.endswith(f" + len({seg})"):
+                    probs.append(f"X' = {nxt}")
+                    continue
+                off = nxt[: -len(f" + len({seg})")]
+                if floating:
+                    # (the parser may add the displacement found by searching from the aligned position)
+                    if off != floating[0] and not off.startswith(floating[0] + " + "):
+                        probs.append(f"floating segment: X' = {nxt}, expected {floating[0]} + len({seg})")
+                elif any(isinstance(n_, ast.Name) and n_.id in carried for n_ in ast.walk(ast.parse(off, mode="eval"))):
+                    probs.append(f"static segment: X' = {nxt} depends on the carry")
+        chk.decide(not probs, "C14.offset-formula", f.qual, "floating segments sit at align(end of the previous segment, OFFSET_ALIGNMENT); the end carried on is this segment's offset + its length", "; ".join(probs[:3]), "", A.loc(BIMG, f.node))
     fio = ctx.own(SEG, "Segment", "full_image_offset")
     cex = None
     for off in (-1, 0, 5, 1024):
